@@ -1,0 +1,12 @@
+//go:build verif
+
+package interpreter
+
+// Called at the entry of every block, statement and expression evaluation.
+var VerifStep func()
+
+func verifStep() {
+	if VerifStep != nil {
+		VerifStep()
+	}
+}
